@@ -6,17 +6,17 @@ pid, name = sys.argv[1], sys.argv[2]
 mx = float(sys.argv[3]) if len(sys.argv) > 3 else 300
 mod=importlib.import_module('queries.'+pid)
 q=[x for x in mod.queries() if x.name==name][0]
-wd='/verif/build/probe'; shutil.rmtree(wd,ignore_errors=True); os.makedirs(wd)
+wd='/verif/build/probe'; shutil.rmtree(wd,ignore_errors=True); os.makedirs(wd); check.CACHE_DIR=wd
 t0=time.time()
 gb,err=check.build(q,wd,False); print('build %.1fs'%(time.time()-t0),err)
 cmd=[c for c in check.cbmc_cmd(q,gb,False,q.solver or 'cadical') if c not in('--json-ui','--trace')]
 print(' '.join(cmd))
 t0=time.time()
-p=subprocess.Popen(cmd,stdout=subprocess.PIPE,stderr=subprocess.STDOUT,text=True)
+p=subprocess.Popen(["timeout",str(int(mx))]+cmd,stdout=subprocess.PIPE,stderr=subprocess.STDOUT,text=True)
 last=t0
 for line in p.stdout:
     now=time.time()
-    if (now-last>1.0 or not line.startswith(('Unwinding','Not unwinding','[','/','<','loop identifier'))) and line.strip():
+    if (now-last>1.0 or os.environ.get('PROF_ALL') or not line.startswith(('Unwinding','Not unwinding','[','/','<','loop identifier'))) and line.strip():
         print('%6.1f (+%.1f) %s'%(now-t0, now-last, line.strip()[:160]))
     last=now
     if now-t0>mx: p.kill(); print('KILLED'); break
